@@ -562,7 +562,7 @@ def smallest_bounding_box(msk):
     """
     x, y, z = np.where(msk > 0)
     corner = np.array([x.min(), y.min(), z.min()])
-    size = np.array([x.max() + 1, y.max() + 1, z.max() + 1])
+    size = np.array([x.max() + 1, y.max() + 1, z.max() + 1]) - corner
     return corner, size
 
 
